@@ -104,10 +104,11 @@ Proof.
         rewrite (dget_find _ _ _ Hfind), Hse. reflexivity.
       * destruct (expired exp (now s)) eqn:Hexp.
         -- cbv zeta.
-           set (s4 := set_dict _ _).
-           assert (I4 : Inv cf s4) by exact (inv_expire cf s k x v exp I Hfind Hse).
+           set (s4 := bump_clk _).
+           assert (I4 : Inv cf s4)
+             by exact (inv_touch cf _ k (hits s) (misses s) (inv_expire cf s k x v exp I Hfind Hse)).
            apply acquire_ok; [exact I4|exact Hp|exact Hlt| | |].
-           ++ unfold s4. sm. rewrite dget_dset_in_same, (dget_find _ _ _ Hfind). reflexivity.
+           ++ unfold s4. sm. rewrite dget_dmove, dget_dset_in_same, (dget_find _ _ _ Hfind). reflexivity.
            ++ unfold s4. sm. lia.
            ++ unfold s4. sm. apply upd_same.
         -- cbv zeta.
